@@ -6,6 +6,7 @@ use roto::{NoCtx, Runtime};
 use crate::ast::*;
 use crate::core::*;
 use crate::host;
+use crate::illtyped;
 use crate::mutate;
 use crate::pgen::{Gen, Profile, SCALAR_TYS};
 
@@ -18,7 +19,69 @@ struct W {
     excl_assign_const: bool,
 }
 
+/// a well-typed program and its ill-typed variant, both as source text
+struct Built {
+    orig: String,
+    mutated: String,
+    kind: String,
+    desc: String,
+}
+
 impl W {
+    fn build_any(&self, case: &Case) -> Option<Built> {
+        let empty: Vec<u8> = Vec::new();
+        let ctl = case.get(2).unwrap_or(&empty);
+        // the first control byte selects the family
+        let fam = ctl.first().copied().unwrap_or(0);
+        if fam >= 160 {
+            return self.build_snippet(case);
+        }
+        let (orig, mutated, k, desc) = self.build(case)?;
+        Some(Built {
+            orig: print_program(&orig, Parens::Minimal),
+            mutated: print_program(&mutated, Parens::Minimal),
+            kind: mutate::kind_name(k).to_string(),
+            desc,
+        })
+    }
+
+    fn build_snippet(&self, case: &Case) -> Option<Built> {
+        let empty: Vec<u8> = Vec::new();
+        let s0 = case.first().unwrap_or(&empty);
+        let s1 = case.get(1).unwrap_or(&empty);
+        let ctl = case.get(2).unwrap_or(&empty);
+        let mut rets: Vec<Ty> = SCALAR_TYS.to_vec();
+        rets.push(Ty::Unit);
+        rets.push(Ty::Str);
+        let prog = Gen::new(s0, s1, self.prof.clone()).program(&rets);
+        let orig = print_program(&prog, Parens::Minimal);
+        let mut c = Choices::new(ctl.get(1..).unwrap_or(&[]));
+        let k = c.below(illtyped::N_SNIPPETS);
+        let sn = illtyped::snippet(k, &mut c);
+        let indent = |s: &str| s.lines().map(|l| format!("    {l}\n")).collect::<String>();
+        let mut lines: Vec<String> = orig.lines().map(|l| l.to_string()).collect();
+        let headers: Vec<usize> = lines
+            .iter()
+            .enumerate()
+            .filter(|(_, l)| (l.starts_with("fn ") || l.starts_with("filtermap ")) && l.ends_with('{'))
+            .map(|(i, _)| i)
+            .collect();
+        let own = sn.own_fn.is_some() || headers.is_empty() || c.chance(128);
+        let desc;
+        let mutated = if own {
+            let (hdr, tail) = sn.own_fn.clone().unwrap_or((String::new(), String::new()));
+            let tail = if tail.is_empty() { String::new() } else { format!("    {tail}\n") };
+            desc = format!("ill-typed function `zz_snippet` appended ({})", sn.kind);
+            format!("{orig}\n{}fn zz_snippet() {hdr} {{\n{}{tail}}}\n", sn.decls, indent(&sn.body))
+        } else {
+            let h = headers[c.below(headers.len())];
+            desc = format!("ill-typed statements inserted at the top of `{}` ({})", lines[h].trim_end_matches('{').trim(), sn.kind);
+            lines.insert(h + 1, indent(&sn.body).trim_end_matches('\n').to_string());
+            format!("{}\n{}", lines.join("\n"), sn.decls)
+        };
+        Some(Built { orig, mutated, kind: format!("snippet:{}", sn.kind), desc })
+    }
+
     fn build(&self, case: &Case) -> Option<(Program, Program, usize, String)> {
         let empty: Vec<u8> = Vec::new();
         let s0 = case.first().unwrap_or(&empty);
@@ -28,7 +91,7 @@ impl W {
         rets.push(Ty::Unit);
         rets.push(Ty::Str);
         let prog = Gen::new(s0, s1, self.prof.clone()).program(&rets);
-        let mut c = Choices::new(ctl);
+        let mut c = Choices::new(ctl.get(1..).unwrap_or(&[]));
         // try kinds starting from the chosen one until one applies
         let k0 = c.below(mutate::N_KINDS);
         for dk in 0..mutate::N_KINDS {
@@ -66,8 +129,8 @@ impl WorkerState for W {
         if case.first().map(|c| c.as_slice()) == Some(b"#!illtyped") {
             return String::from_utf8_lossy(case.get(1).map(|c| c.as_slice()).unwrap_or(b"")).to_string();
         }
-        match self.build(case) {
-            Some((_, m, k, desc)) => format!("// edit: {} -- {}\n{}", mutate::kind_name(k), desc, print_program(&m, Parens::Minimal)),
+        match self.build_any(case) {
+            Some(b) => format!("// edit: {} -- {}\n{}", b.kind, b.desc, b.mutated),
             None => "(no applicable edit)".into(),
         }
     }
@@ -76,24 +139,22 @@ impl WorkerState for W {
         if let Some(o) = literal_case(&self.rt, case) {
             return o;
         }
-        let Some((orig, mutated, kind, desc)) = self.build(case) else {
+        let Some(Built { orig: osrc, mutated: msrc, kind, desc }) = self.build_any(case) else {
             return Outcome::discard("no edit applicable to this program");
         };
-        let osrc = print_program(&orig, Parens::Minimal);
         if let Err(e) = host::compile(&self.rt, &osrc) {
             return Outcome::discard(format!("original program rejected by the compiler:\n{e}\n--- source ---\n{osrc}"));
         }
-        let msrc = print_program(&mutated, Parens::Minimal);
-        eprintln!("@@ctx edit={}", mutate::kind_name(kind));
+        eprintln!("@@ctx edit={kind}");
         let mut o = Outcome::pass();
-        o.classes.push(format!("edit:{}", mutate::kind_name(kind)));
+        o.classes.push(format!("edit:{kind}"));
         o.nontrivial = true;
         o.hash = fnv(msrc.as_bytes());
-        let rendered = format!("// edit: {} -- {}\n{}", mutate::kind_name(kind), desc, msrc);
+        let rendered = format!("// edit: {kind} -- {desc}\n{msrc}");
         match host::compile(&self.rt, &msrc) {
             Ok(_) => {
                 let mut f = Outcome::fail(
-                    format!("accepted:{}", mutate::kind_name(kind)),
+                    format!("accepted:{kind}"),
                     format!("the ill-typed program compiled. Edit: {desc}\n--- source ---\n{msrc}"),
                 );
                 f.render = Some(rendered);
@@ -107,7 +168,7 @@ impl WorkerState for W {
                     o
                 } else {
                     let mut f = Outcome::fail(
-                        format!("wrong-error-kind:{}", mutate::kind_name(kind)),
+                        format!("wrong-error-kind:{kind}"),
                         format!("expected a type error, got:\n{e}\nEdit: {desc}\n--- source ---\n{msrc}"),
                     );
                     f.render = Some(rendered);
@@ -123,7 +184,7 @@ impl Prop for C07P {
         "C07"
     }
     fn rule(&self) -> String {
-        "a well-typed generated program (known to compile) plus exactly one type-breaking edit from a catalogue of 26 edit kinds (wrong-typed initialiser/condition/argument/result, arity, undefined or out-of-scope name, missing/duplicate/unknown record field, missing match arm, arm after `_`, negated unsigned, arithmetic/remainder/ordering on non-numbers, `?`/accept where forbidden, assignment to a function/constant/field of a scalar, redeclaration, recursive types/constants, return in a constant), applied at a random applicable site; oracle: compile returns a report starting with `Error: Type error`. Every case is non-trivial; distinct by mutated program text".into()
+        "a well-typed generated program (known to compile) plus exactly one type-breaking edit from a catalogue of 26 AST-level edit kinds (wrong-typed initialiser/condition/argument/result, arity, undefined or out-of-scope name, missing/duplicate/unknown record field, missing match arm, arm after `_`, negated unsigned, arithmetic/remainder/ordering on non-numbers, `?`/accept where forbidden, assignment to a function/constant/field of a scalar, redeclaration, recursive types/constants, return in a constant), applied at a random applicable site; or (3 cases in 8) one of 30 families of self-contained ill-typed statement snippets with randomised types (signedness chains of un-annotated literals, branches/arms/list elements/operands of different types, constructor arity, assignment or return of another type, for over a non-list, logical operators on non-bool, literal against annotation, a variant matched twice while another is missing, only-guarded arms, anonymous records of another width against named or annotated records, type-argument mismatches, wrapper against plain, undeclared types, negated unsigned, distinct named records, fields of scalars, ...) inserted at the top of a generated function or appended as a function of its own; oracle: compile returns a report starting with `Error: Type error`. Every case is non-trivial; distinct by mutated program text".into()
     }
     fn assumptions(&self) -> Vec<String> {
         vec![
@@ -138,7 +199,7 @@ impl Prop for C07P {
         }
     }
     fn shape(&self, _tier: Tier) -> CaseShape {
-        CaseShape::streams(&[500, 200, 16])
+        CaseShape::streams(&[500, 200, 24])
     }
     fn worker(&self, excl: &[String]) -> Box<dyn WorkerState> {
         let mut prof = crate::props::prog::profile_for(crate::props::prog::Kind::C02, excl);
